@@ -265,6 +265,12 @@ def _run_history(job):
             s.add_child(create_survey_element_from_dict({"type": "calculate", "name": f"r{nref}", "bind": {"calculate": "${" + arg + "} + 1"}}))
             trace.append({"op": op, "name": arg})
             continue
+        if op == "add_repeat":
+            k = sum(1 for e in trace if e["op"] == "add_repeat") + 1
+            s.add_child(create_survey_element_from_dict({"type": "repeat", "name": f"rp{k}", "label": lab(f"RP{k}"), "children": [
+                {"type": "text", "name": f"b{k}", "label": lab(f"B{k}")}, {"type": "calculate", "name": f"c{k}", "bind": {"calculate": "${b%d} + 1" % k}}]}))
+            trace.append({"op": op, "name": arg})
+            continue
         if op == "move":
             # re-parenting through the public API: the group leaves the root and is attached below a new group
             del s.children[next(i for i, c in enumerate(s.children) if c is grp)]      # (list.remove compares by content, which validates)
@@ -279,7 +285,7 @@ def _run_history(job):
             trace.append({"op": "mark", "name": arg})
             continue
         ev = {"op": "render", "outcome": "ok", "required_on": [], "modes_agree": False, "unique_siblings": False, "binds_once": False, "controls_once": False, "closure": False,
-              "refs_resolve": False, "same_ids": False, "has_refs": False, "ref_paths": [], "inst_paths": []}
+              "refs_resolve": False, "same_ids": False, "has_refs": False, "ref_paths": [], "inst_paths": [], "rep_relative": 0}
         try:
             x = s.to_xml(validate=False, pretty_print=False)
             root = project.parse(x)
@@ -298,6 +304,8 @@ def _run_history(job):
             import re as _re
             for b in project.binds(root):
                 nm = project.split_path(b["nodeset"])[-1]
+                if _re.fullmatch(r"c\d+", nm) and _re.match(r"\s*\.\./b\d+\s*\+ 1", b["attrs"].get("calculate", "")):
+                    ev["rep_relative"] += 1
                 if _re.fullmatch(r"r\d+", nm) and "calculate" in b["attrs"]:
                     m = _re.match(r"\s*(/[\w/.\-]+)\s*\+ 1", b["attrs"]["calculate"])
                     ev["ref_paths"].append(project.split_path(m.group(1))[1:] if m else ["?" + b["attrs"]["calculate"]])
